@@ -669,10 +669,12 @@ func Main(prop string, register func(r *Run)) {
 		violations: map[string]*violation{}, start: time.Now()}
 	b := *budget
 	if b == 0 {
+		// safety nets only: the quick tier normally takes 1..80 s per property, the thorough one
+		// up to an hour; a loaded or slower machine must not turn a pass into a capped run
 		if *tier == "quick" {
-			b = 100 * time.Second
+			b = 20 * time.Minute
 		} else {
-			b = 25 * time.Minute
+			b = 90 * time.Minute
 		}
 	}
 	r.deadline = r.start.Add(b)
@@ -814,7 +816,9 @@ func (r *Run) finish(writeEvidence bool) int {
 				caps = append(caps, p.Name+": "+c)
 			}
 		}
-		if p.Evaluations == 0 {
+		if p.Evaluations == 0 && p.Exhaustive {
+			// (a part that did nothing because the run's time budget had already run out is
+			// reported as capped - exhaustive:false - not as a broken harness)
 			vacuous = append(vacuous, p.Name+": no executions")
 		}
 	}
